@@ -220,7 +220,14 @@ pub struct DirCtx<TC: HasRef> {
     pub kinds: Vec<String>,
     /// honest lookup proofs kept from earlier epochs (C06: material from another epoch's tree)
     pub old_proofs: Vec<(String, u64, akd::LookupProof)>,
+    /// node labels of the leaves that publishes of labels OUTSIDE the modelled set must have left in the tree
+    pub other_ident: std::collections::HashSet<NodeLabel>,
+    /// per foreign group (tag): versions published so far of its labels 0, 1, 2, ...
+    pub other_groups: HashMap<u64, Vec<u64>>,
 }
+
+/// stands for MostRecent(usize::MAX) in traces
+pub const HUGE_N: u64 = 2147483647;
 
 pub fn rid(d: &Digest) -> String {
     short(d)
@@ -265,6 +272,8 @@ impl<TC: HasRef> DirCtx<TC> {
             versions: HashMap::new(),
             kinds: vec![],
             old_proofs: vec![],
+            other_ident: Default::default(),
+            other_groups: Default::default(),
         }
     }
 
@@ -356,6 +365,7 @@ impl<TC: HasRef> DirCtx<TC> {
                 hashed: <TC::R as RefCfg>::leaf(&n.hash.0, n.last_epoch),
             });
             match self.ident.get(&n.label) {
+                None if self.other_ident.contains(&n.label) => {} // a leaf of a label outside the modelled set: in the reference root, not in the projection
                 None => abs.push(json!(["?", "?", 0, "?", n.last_epoch])),
                 Some((name, fresh, ver)) => {
                     let val = if *fresh {
@@ -420,6 +430,59 @@ impl<TC: HasRef> DirCtx<TC> {
         }
     }
 
+    /// Publish `count` labels outside the modelled set (group `tag`; a later call with the same tag updates them).
+    pub async fn publish_other(&mut self, st: &Value, tr: &mut Tracer) {
+        let count = st["count"].as_u64().unwrap_or(1);
+        let tag = st["tag"].as_u64().unwrap_or(0);
+        let before = self.roots.len() as u64 - 1;
+        let mut vers = self.other_groups.get(&tag).cloned().unwrap_or_default();
+        while (vers.len() as u64) < count {
+            vers.push(0);
+        }
+        let n = vers.len() as u64;
+        // every label of the group gets a value it did not have before (its next version)
+        let round = vers.iter().copied().max().unwrap_or(0) + 1;
+        let newver = round;
+        let mut real = vec![];
+        for i in 0..n {
+            let lab = akd::AkdLabel(format!("other/{tag}/{i}").into_bytes());
+            real.push((lab, akd::AkdValue(format!("ov{round}").into_bytes())));
+        }
+        let w = self.writer().await;
+        let res = w.publish(real.clone()).await;
+        match res {
+            Ok(EpochHash(ep, digest)) if ep == before + 1 => {
+                self.roots.push(digest);
+                let mut reqs = vec![];
+                for (i, (lab, _)) in real.iter().enumerate() {
+                    vers[i] += 1;
+                    reqs.push((lab.clone(), VersionFreshness::Fresh, vers[i]));
+                    if vers[i] > 1 {
+                        reqs.push((lab.clone(), VersionFreshness::Stale, vers[i] - 1));
+                    }
+                }
+                self.other_groups.insert(tag, vers);
+                for (lab, f, v) in reqs {
+                    let nl = self.vrf.get_node_label::<TC>(&lab, f, v).await.unwrap();
+                    self.other_ident.insert(nl);
+                }
+                let (refroot, leaves) = self.leaves_and_refroot(ep).await;
+                let total = project_tree(&self.db.all_records().await, ep).map(|ns| ns.iter().filter(|x| x.node_type == TreeNodeType::Leaf).count()).unwrap_or(0);
+                tr.emit(json!({"ev": "publish_other", "count": n, "tag": tag, "version": newver, "res": "ok", "epoch": ep, "root": rid(&digest),
+                    "root_ok": refroot == Some(digest), "leaves": leaves, "other": total - leaves.as_array().unwrap().len(), "other_expected": self.other_ident.len(),
+                    "txn_open": self.manager.is_transaction_active()}));
+            }
+            Ok(EpochHash(ep, digest)) => {
+                tr.emit(json!({"ev": "publish_other", "count": n, "tag": tag, "version": newver, "res": "noop", "epoch": ep, "root": rid(&digest), "root_ok": true,
+                    "leaves": [], "other": 0, "other_expected": 0, "txn_open": self.manager.is_transaction_active()}));
+            }
+            Err(_) => {
+                tr.emit(json!({"ev": "publish_other", "count": n, "tag": tag, "version": newver, "res": "err", "epoch": before, "root": "-", "root_ok": true,
+                    "leaves": [], "other": 0, "other_expected": 0, "txn_open": self.manager.is_transaction_active()}));
+            }
+        }
+    }
+
     /// A view of this context over another database (a copy at a crash point), read through a
     /// ReadOnlyDirectory on a fresh manager.
     pub async fn fork_readonly(&self, db: HookDb) -> Option<DirCtx<TC>> {
@@ -444,6 +507,8 @@ impl<TC: HasRef> DirCtx<TC> {
             versions: self.versions.clone(),
             kinds: self.kinds.clone(),
             old_proofs: vec![],
+            other_ident: self.other_ident.clone(),
+            other_groups: self.other_groups.clone(),
         })
     }
 
@@ -532,6 +597,8 @@ impl<TC: HasRef> DirCtx<TC> {
             versions: self.versions.clone(),
             kinds: self.kinds.clone(),
             old_proofs: vec![],
+            other_ident: self.other_ident.clone(),
+            other_groups: self.other_groups.clone(),
         };
         if warm {
             let mut scratch = Tracer::new();
@@ -631,6 +698,8 @@ impl<TC: HasRef> DirCtx<TC> {
             versions: self.versions.clone(),
             kinds: self.kinds.clone(),
             old_proofs: vec![],
+            other_ident: self.other_ident.clone(),
+            other_groups: self.other_groups.clone(),
         };
         let mut scratch = Tracer::new();
         r.sweep(&mut scratch).await;
@@ -729,7 +798,7 @@ impl<TC: HasRef> DirCtx<TC> {
         let hp = if n == 0 {
             HistoryParams::Complete
         } else {
-            HistoryParams::MostRecent(n as usize)
+            HistoryParams::MostRecent(if n == HUGE_N { usize::MAX } else { n as usize })
         };
         let vp = if allow {
             HistoryVerificationParams::AllowMissingValues { history_params: hp }
@@ -1078,6 +1147,9 @@ impl<TC: HasRef> DirCtx<TC> {
                     for n in 1..=(total + 1) {
                         self.ev_history(l, n, allow, tr).await;
                     }
+                    // "larger than the number of versions" at the far end: the trace says 2^31 - 1 (TLC integers are 32 bit),
+                    // the request is MostRecent(usize::MAX)
+                    self.ev_history(l, HUGE_N, allow, tr).await;
                 }
             }
         }
@@ -1174,6 +1246,7 @@ pub async fn run_behaviour<TC: HasRef>(b: &Value, tr: &mut Tracer) {
                     r.remote_reads(&ctx.roots, &ctx.versions, tr).await;
                 }
             }
+            "publish_other" => ctx.publish_other(st, tr).await,
             "publish_crash" => ctx.publish_crash(&st["batch"], b["seed"].as_u64().unwrap_or(1) + i as u64, tr).await,
             "tombstone" => {
                 ctx.tombstone(st["label"].as_str().unwrap(), st["cut"].as_u64().unwrap(), tr)
@@ -1258,6 +1331,20 @@ pub fn main_dir(args: &[String]) {
     let threads: usize = arg_val(args, "--threads").map(|s| s.parse().unwrap()).unwrap_or(8);
     let behaviours = read_ndjson(&input);
     let (n, total) = run_parallel(behaviours, &out, threads, |b| async move {
+        if b["mt"].as_bool().unwrap_or(false) {
+            // the same behaviour on a multi-thread runtime: tasks that akd spawns (parallel insertion, preload, parallel VRF)
+            // really run in parallel and finish in any order
+            return tokio::task::spawn_blocking(move || {
+                let rt = tokio::runtime::Builder::new_multi_thread().worker_threads(4).enable_all().build().unwrap();
+                rt.block_on(async move {
+                    let mut tr = Tracer::new();
+                    run_behaviour_dyn(&b, &mut tr).await;
+                    tr
+                })
+            })
+            .await
+            .unwrap();
+        }
         let mut tr = Tracer::new();
         run_behaviour_dyn(&b, &mut tr).await;
         tr
